@@ -30,6 +30,8 @@ def main():
         args.remove('--round4'); root = '/tmp/sd'; names = {'a': 'g', 'b': 'h'}
     if '--round5' in args:
         args.remove('--round5'); root = '/tmp/se'; names = {'a': 'i', 'b': 'j'}
+    if '--round6' in args:
+        args.remove('--round6'); root = '/tmp/sf'; names = {'a': 'k', 'b': 'l'}
     for prop in args:
         src = '%s/%s/out' % (root, prop)
         for v in ('a', 'b'):
